@@ -491,7 +491,12 @@ def oracle_c10(res):
         if dedup and not is_dup:
             seen[(remote, mid)] = t
         if is_dup:
-            continue                       # C04's business
+            # what a copy is answered with is C04's business -- but whatever the table holds, a message that is
+            # not confirmable is never acknowledged
+            if mt == "NON" and [o for o in now_out if o["mtype"] == "ACK"]:
+                return (f"non-acked: NON request mid {mid} (a message ID used by an earlier request of that peer) "
+                        f"was answered with an ACK")
+            continue
         if code == 0:
             if mt == "CON":
                 if [(o["mtype"], o["code"], o["mid"]) for o in now_out] != [("RST", 0, mid)]:
